@@ -13,12 +13,37 @@ state."
 over all `n`, all machines of that depth and all call sequences.  The model (`exec`) is
 state_machine.cpp with patches/C16-01 and C16-02; the code without them is `aCall` of Arena.lean
 with the corresponding `Fix`, where the counterexamples are proved.  Callbacks may observe and
-call their own machine and every ancestor; other targets are `foreign` to these theorems (the
-arena model executes them, tied to the C++ by the differential check only).
+call their own machine and every ancestor; other targets are `foreign` to the TREE theorems.
+
+Everything else the API allows — callbacks calling ANY machine object, calls addressed directly
+to a sub-machine, one machine object attached to several states / parents, definition calls after
+a machine has run — is the ARENA model (`aCall`, `aProg`); section "arena" below proves, per
+machine OBJECT and for every program: balance, idle-between-calls, re-entrancy rejected, frame.
+
+What is OUTSIDE the quantifier of the statement ("any hierarchy", "every sequence of
+start/run(event)/stop/restart calls"), decided in this round:
+* a machine object shared by two PARENTS, or stopped/started by a direct call while its parent
+  uses it, is not a hierarchy: the per-object theorems still hold (it is entered and exited once
+  per start/stop, whoever calls), but the parent-relative clause "events go to the active
+  sub-machine until it has terminated" does not — `C16_arena_shared_sub_stranded` is the witness
+  (the second parent keeps delegating to a sub-machine the first parent stopped, and never handles
+  the event itself).  Sharing between two states of ONE parent is inside the tree reading and
+  harmless (a parent leaves a state only after stopping its sub-machine).
+* destroying a machine (`delete` from inside one of its own callbacks, or while running) is not one
+  of the four calls; `~Impl` asserts `cb_level_ == 0` and runs no exit action.  Not modelled.
+* `setStateChangedCallback` from inside the state-changed callback replaces the executing
+  `std::function`; definition calls are not among the calls of the quantifier.  Not modelled.
+* attachment cycles: `start/stop/run` terminate on them (the re-entrancy guard cuts the recursion:
+  `good_aCall` needs no acyclicity), `toJson` does not (unbounded recursion); not a hierarchy.
 -/
 import TboxModel.C16.Exec
 import TboxModel.C16.Order
 import TboxModel.C16.Arena
+import TboxModel.C16.ArenaProg
+import TboxModel.C16.ArenaFuel
+import TboxModel.C16.ArenaOrder
+import TboxModel.C16.ArenaSafe
+import TboxModel.C16.GuardOrder
 set_option linter.unusedSimpArgs false
 set_option linter.unusedVariables false
 namespace Tbox.C16
@@ -249,5 +274,256 @@ example : phases ((subOps 0).run []
          states := [{ id := 1, enter := none, exit := some [.obs none], routes := [⟨0, 0, none, some []⟩], events := [],
                       dflt := none, sub := none }] } : Mach 0) ⟨7, 3⟩).2.2
     = [.exit 1 ⟨7, 3⟩ true, .action 1 (some 0) ⟨7, 3⟩ true, .enter 0 ⟨7, 3⟩ false, .notify 1 0 ⟨7, 3⟩ true] := by decide
+
+
+/-! ### C16_guard_eval_order -/
+
+/-- **Guards are evaluated once each, in registration order, up to the first match.** In one
+`find_if` over the routes of a state for event `e`, the guard evaluations of the scanning machine
+(callback bodies of the guards may observe / call, that adds none) are exactly: the guards of the
+CANDIDATE routes (event equal or wildcard) among the routes up to and including the selected one
+(all routes if none is selected), in registration order, each exactly once, with the value of its
+truth table; a route without a guard is never "evaluated", and nothing after the selected route is. -/
+theorem C16_guard_eval_order (sid : StateId) (self : Nat) (rt : Rt) (ctx : Ctx) (e : Event) (rs : List Route) :
+    (routeScan sid self rt ctx e 0 rs).2.filterMap guardOf =
+      expectedEvals e 0 rs (scanned (routeScan sid self rt ctx e 0 rs).1 0 rs.length) :=
+  routeScan_guards sid self rt ctx e 0 rs
+
+/-- non-vacuity: the first route does not match the event (no evaluation), the wildcard's guard is
+false, the third is true and selected, the fourth is never evaluated -/
+example : (routeScan 1 0 {} [] ⟨2, 0⟩ 0
+    [⟨1, 4, some ⟨[2], []⟩, none⟩, ⟨0, 3, some ⟨[5], [.obs none]⟩, none⟩, ⟨2, 5, some ⟨[2], []⟩, none⟩, ⟨0, 6, some ⟨[2], []⟩, none⟩]).2.filterMap guardOf
+    = [(1, false), (2, true)] := by decide
+
+/-! ### arena: every machine OBJECT, every program (calls on any machine, callbacks calling any
+machine, shared sub-machines, late definition calls) -/
+
+open AI in
+/-- **Balance per machine object, idle between calls.** After any program on a store in which
+nothing had been started — method invocations addressed to any machine, from outside or from any
+callback (enter/exit/transition actions, guards, handlers, state-changed callbacks) on any machine,
+definition calls in between — every machine object `j` is outside all of its methods
+(`cb_level_ = 0`), `is_running_ ↔ curr_state_ ≠ nullptr`, and for every state `s`:
+#enter s − #exit s among `j`'s own events = 1 if `s` is `j`'s current state, else 0. -/
+theorem C16_arena_balanced (g : Arena) (ops : List AOp) (hf : AI.Fresh g) (hl : ∀ op ∈ ops, op.Legal) (j : Nat) :
+    ((aProg g ops).1.get j).rt.cbLevel = 0 ∧
+    ((aProg g ops).1.get j).rt.running = ((aProg g ops).1.get j).rt.curr.isSome ∧
+    ∀ s, delta j s (aProg g ops).2 = if ((aProg g ops).1.get j).rt.curr = some s then 1 else 0 := by
+  have h := aProg_inv ops g [] hl (fresh_ainv g hf) j
+  simp only [List.nil_append] at h
+  exact ⟨by have := h.1; unfold busy at this; simpa using this, h.2.wf, h.2.bal⟩
+
+open AI in
+/-- **"… by the time the machine is stopped", per object.** Whenever after a program machine `j`
+is not running (stopped by anybody: from outside, by its parent, by a callback of another machine),
+each of its states has been exited exactly as often as it was entered. -/
+theorem C16_arena_balanced_after_stop (g : Arena) (ops : List AOp) (hf : AI.Fresh g) (hl : ∀ op ∈ ops, op.Legal) (j : Nat)
+    (hstopped : ((aProg g ops).1.get j).rt.running = false) (s : StateId) : delta j s (aProg g ops).2 = 0 := by
+  have h := C16_arena_balanced g ops hf hl j
+  rw [h.2.2 s]
+  have := h.2.1; rw [hstopped] at this
+  cases hc : ((aProg g ops).1.get j).rt.curr with
+  | none => simp
+  | some c => rw [hc] at this; simp at this
+
+open AI in
+/-- **Re-entrancy rejected per object.** (1) Whenever a machine object is inside one of its own
+methods (`cb_level_ ≠ 0`: running an action, a guard, a handler, the notification, or calling
+into a sub-machine), ANY invocation of `start/stop/restart/run` on it — by its own callback, by a
+callback of its sub-machine, of a sibling or of an unrelated machine reached through any chain of
+calls — returns false and leaves the WHOLE store unchanged.  (2) In the trace of every program,
+every call a callback body made on its own machine returned false with the five observers equal
+before and after. -/
+theorem C16_arena_reentrancy_rejected :
+    (∀ (fuel : Nat) (g : Arena) (k : Nat) (c : Call), (g.get k).rt.cbLevel ≠ 0 →
+      (aCall Fix.all fuel g k c).1 = g ∧ (aCall Fix.all fuel g k c).2.1 = false) ∧
+    (∀ (g : Arena) (ops : List AOp), ∀ ev ∈ (aProg g ops).2,
+      match ev.kind with
+      | .call t _ res before after => t.getD ev.mid = ev.mid → res = false ∧ after = before
+      | _ => True) := by
+  refine ⟨fun fuel g k c hb => (good_aCall fuel g k c).2 hb, fun g ops ev he => ?_⟩
+  have := aProg_rej ops g ev he
+  unfold selfRej at this
+  cases hk : ev.kind <;> simp only [hk] at this ⊢ <;> first | exact this | trivial
+
+open AI in
+/-- **Frame.** One method invocation (any fuel, any store, any scripts) keeps the size of the store
+and every machine's definition; a machine that is inside one of its methods keeps its run-time
+record and contributes no event of its own code (only what its callback bodies print); a machine
+outside all methods is outside all methods afterwards. -/
+theorem C16_arena_frame (fuel : Nat) (g : Arena) (k : Nat) (c : Call) (j : Nat) :
+    (aCall Fix.all fuel g k c).1.length = g.length ∧
+    SameDef ((aCall Fix.all fuel g k c).1.get j) (g.get j) ∧
+    ((g.get j).rt.cbLevel ≠ 0 → ((aCall Fix.all fuel g k c).1.get j).rt = (g.get j).rt ∧
+       ∀ ev ∈ (aCall Fix.all fuel g k c).2.2, ev.mid = j → isScriptKind ev.kind = true) ∧
+    ((g.get j).rt.cbLevel = 0 → ((aCall Fix.all fuel g k c).1.get j).rt.cbLevel = 0) := by
+  have G := (good_aCall fuel g k c).1
+  refine ⟨G.len, G.defs j, fun hb => G.frozen j (by simp) hb, fun hi => ?_⟩
+  have := (G.idle j (by simp) (by unfold busy; simp [hi])).1
+  unfold busy at this; simpa using this
+
+/-- **First match, arena.** Whatever the guards' callback bodies do (call any machine, change the
+store), the route the arena's `find_if` selects is the first eligible one in registration order. -/
+theorem C16_arena_first_match (rec : Rec) (k : Nat) (sid : StateId) (e : Event) (g : Arena) (rs : List Route) :
+    match (aRouteScan rec k sid e 0 g rs).2.1 with
+    | some (i, r) => rs[i]? = some r ∧ eligible r e = true ∧ ∀ r' ∈ rs.take i, eligible r' e = false
+    | none => ∀ r' ∈ rs, eligible r' e = false := by
+  rw [aRouteScan_sel rec k sid e 0 {} [] rs 0 g]
+  exact C16_first_match sid 0 {} [] e rs
+
+/-- **Guard evaluation order, arena: re-entrancy through a GUARD.** `cb_level_` is raised around
+the `find_if`, so while machine `k` scans (it is busy), whatever the guards' callback bodies do —
+`run()` on `k` itself (rejected), calls on any other machine (which may run their own scans and
+call back) — the guard evaluations of `k`'s OWN scan are exactly those of `C16_guard_eval_order`:
+the candidates' guards up to the selected route, in order, once each. -/
+theorem C16_arena_guard_eval_order (fuel : Nat) (k : Nat) (sid : StateId) (e : Event) (g : Arena) (rs : List Route)
+    (hb : (g.get k).rt.cbLevel ≠ 0) :
+    (aRouteScan (aCall Fix.all fuel) k sid e 0 g rs).2.2.filterMap (aGuardOf k) =
+      expectedEvals e 0 rs (scanned (aRouteScan (aCall Fix.all fuel) k sid e 0 g rs).2.1 0 rs.length) := by
+  rw [aRouteScan_guards _ (AI.good_aCall fuel) k sid e 0 {} [] rs 0 g hb, aRouteScan_sel _ k sid e 0 {} [] rs 0 g]
+  exact routeScan_guards sid 0 {} [] e 0 rs
+
+/-- non-vacuity: machine 0 (busy: inside `run`) scans two guarded wildcard routes; the first guard's
+body calls `run` on machine 0 itself and on machine 1, whose own scan evaluates a guard too -/
+example :
+    let g : Arena :=
+      [{ mid := 0, init := 1, cb := none, rt := { running := true, curr := some 1, cbLevel := 1 }, states := [] },
+       { mid := 1, init := 1, cb := none, rt := { running := true, curr := some 1 },
+         states := [{ id := 1, enter := none, exit := none, routes := [⟨0, 1, some ⟨[], []⟩, none⟩], events := [], dflt := none, sub := none }] }]
+    let rs : List Route := [⟨0, 2, some ⟨[], [.call none (.run ⟨7, 0⟩), .call (some 1) (.run ⟨7, 0⟩)]⟩, none⟩, ⟨0, 3, some ⟨[7], []⟩, none⟩]
+    let r := aRouteScan (aCall Fix.all 5) 0 1 ⟨7, 0⟩ 0 g rs
+    r.2.2.filterMap (aGuardOf 0) = [(0, false), (1, true)] ∧ r.2.2.filterMap (aGuardOf 1) = [(0, false)] ∧
+    (r.2.2.any fun ev => match ev with | ⟨0, .call none (.run ⟨7, 0⟩) false _ _⟩ => true | _ => false) = true := by decide
+
+/-- **Order, exactly once — per machine object, arena.** One `run(e)` invocation on machine object
+`k` (from outside, from its parent, from any callback of any machine), whatever the callbacks
+running inside it do: `k`'s own phase events are either none (current state unchanged: refused,
+consumed by the sub-machine, no route) or exactly exit `a`, the transition action, enter `b`, the
+notification `a → b`, once each and in this order, and `k` ends in `b`.  The hypotheses hold for
+every machine after every program (`C16_arena_order_once_prog`). -/
+theorem C16_arena_order_once (fuel : Nat) (g : Arena) (k : Nat) (e : Event)
+    (hwf : (g.get k).rt.running = (g.get k).rt.curr.isSome)
+    (hcid : ∀ c, (g.get k).rt.curr = some c → ((g.get k).stateOf c).id = c) :
+    AI.AOrderOnce k (g.get k).rt.curr ((aCall Fix.all fuel g k (.run e)).1.get k).rt.curr e
+      (aCall Fix.all fuel g k (.run e)).2.2 := by
+  cases fuel with
+  | zero => exact Or.inl ⟨AI.aPhases_noPh k _ (AI.noPh_cons rfl (AI.noPh_nil k)), rfl⟩
+  | succ f =>
+    unfold aCall
+    split
+    · exact Or.inl ⟨AI.aPhases_noPh k _ (AI.noPh_unm k k), rfl⟩
+    · rename_i hk
+      exact AI.aRun_order _ (AI.good_aCall f) g k e (Nat.lt_of_not_le hk) hwf hcid
+
+theorem C16_arena_order_once_prog (g : Arena) (ops : List AOp) (hf : AI.Fresh g) (hl : ∀ op ∈ ops, op.Legal)
+    (fuel : Nat) (k : Nat) (e : Event) :
+    AI.AOrderOnce k ((aProg g ops).1.get k).rt.curr ((aCall Fix.all fuel (aProg g ops).1 k (.run e)).1.get k).rt.curr e
+      (aCall Fix.all fuel (aProg g ops).1 k (.run e)).2.2 := by
+  have h := AI.aProg_inv ops g [] hl (AI.fresh_ainv g hf) k
+  exact C16_arena_order_once fuel _ k e h.2.wf h.2.cid
+
+/-- **The fuel suffices.** The arena model bounds the depth of nested method invocations by a fuel
+and marks exhaustion with a `foreign` event.  With more fuel than there are machine objects — the
+driver passes `2·#machines + 4` — no invocation, on any store, with any scripts (cyclic
+attachments included), ever runs out: an accepted invocation keeps its machine busy until it
+returns and busy machines reject, so at most `#machines` accepted invocations nest. -/
+theorem C16_arena_fuel_suffices (fuel : Nat) (g : Arena) (k : Nat) (c : Call) (h : g.length < fuel) :
+    ∀ ev ∈ (aCall Fix.all fuel g k c).2.2, ∀ t, ev.kind ≠ .foreign t :=
+  AI.fuel_ok fuel g k c (List.range g.length) (AI.cover_range g) (by simpa using h)
+
+/-- … in particular never in a program run the way the driver runs it -/
+theorem C16_arena_prog_fuel_suffices : ∀ (ops : List AOp) (g : Arena), ∀ ev ∈ (aProg g ops).2, ∀ t, ev.kind ≠ .foreign t
+  | [], g => by intro ev he; cases he
+  | op :: ops, g => by
+    simp only [aProg]
+    refine AI.nof_append ?_ (C16_arena_prog_fuel_suffices ops _)
+    cases op with
+    | call k c => exact C16_arena_fuel_suffices (fuelFor g) g k c (by unfold fuelFor; omega)
+    | defn k f => intro ev he; cases he
+    | always k f => intro ev he; cases he
+
+/-- non-vacuity: with too little fuel the marker does appear (`cexArena`: parent + sub-machine, fuel 1) -/
+example : ((aCall Fix.all 1 cexArena 1 .start).2.2.any fun ev => match ev.kind with | .foreign _ => true | _ => false) = true ∧
+    ((aCall Fix.all 3 cexArena 1 .start).2.2.any fun ev => match ev.kind with | .foreign _ => true | _ => false) = false := by decide
+
+/-- **No null `curr_state_` is ever dereferenced — arena, every program.** The arena model marks
+every `curr_state_->…` / `sub_sm->…` on a null pointer (undefined behaviour in the C++) with an
+`unmodelled` event of that machine.  After nothing-started, for every program (calls on any machine
+from outside and from any callback, shared sub-machines, direct calls to sub-machines, definition
+calls in between) no such event of a machine of the store occurs.  (An `unmodelled` event whose
+index lies beyond the store is a call addressed to a machine object that does not exist: script
+targets out of range, which the line protocol refuses.) -/
+theorem C16_arena_no_null_deref (g : Arena) (ops : List AOp) (hf : AI.Fresh g) (hl : ∀ op ∈ ops, op.Legal) :
+    ∀ ev ∈ (aProg g ops).2, ev.kind = .unmodelled → g.length ≤ ev.mid :=
+  AI.aProg_nou ops g [] hl (AI.fresh_ainv g hf)
+
+/-
+-- OPEN  arena refinement to the reference semantics (trace equality with `Spec`): tie only.
+-/
+
+
+
+/-- S (machine 0, one state) is the sub-machine of state 1 of BOTH parents P1 (machine 1) and P2
+(machine 2); P2 has a route 1 --ev 1--> 2 -/
+def sharedArena : Arena :=
+  [leaf 0 1,
+   { mid := 1, init := 1, cb := none, rt := {},
+     states := [{ id := 1, enter := some [], exit := some [], routes := [], events := [], dflt := none, sub := some 0 }] },
+   { mid := 2, init := 1, cb := none, rt := {},
+     states := [{ id := 1, enter := some [], exit := some [], routes := [⟨1, 2, none, none⟩], events := [], dflt := none, sub := some 0 },
+                { id := 2, enter := some [], exit := some [], routes := [], events := [], dflt := none, sub := none }] }]
+
+/-- **A machine object shared by two parents (outside the statement's "hierarchy").** P1.start,
+P2.start (S is already running: P2's `sub_sm->start()` is refused), P1.stop (stops S).  Now P2 is
+running in state 1 whose sub-machine S is stopped, not terminated: `P2.run(1)` delegates to S,
+gets false, and returns false without looking at its own eligible route — P2 stays in state 1.
+Per object everything is balanced: S was entered once and exited once. -/
+theorem C16_arena_shared_sub_stranded :
+    let r := aProg sharedArena [.call 1 .start, .call 2 .start, .call 1 .stop]
+    let x := aCall Fix.all (fuelFor r.1) r.1 2 (.run ⟨1, 0⟩)
+    (r.1.get 0).rt.running = false ∧ (r.1.get 2).rt.curr = some 1 ∧
+    x.2.1 = false ∧ (x.1.get 2).rt.curr = some 1 ∧ x.2.2 = [] ∧
+    AI.delta 0 1 r.2 = 0 ∧ countOf (fun k => match k with | .enter 1 _ _ => true | _ => false) 0 r.2 = 1 := by
+  decide
+
+/-- two unrelated machines whose transition actions call each other -/
+def pingPong : Arena :=
+  [{ mid := 0, init := 1, cb := none, rt := {},
+     states := [{ id := 1, enter := none, exit := none, routes := [⟨1, 2, none, some [.call (some 1) (.run ⟨1, 0⟩)]⟩], events := [], dflt := none, sub := none },
+                { id := 2, enter := none, exit := none, routes := [], events := [], dflt := none, sub := none }] },
+   { mid := 1, init := 1, cb := none, rt := {},
+     states := [{ id := 1, enter := none, exit := none, routes := [⟨1, 2, none, some [.call (some 0) (.run ⟨2, 0⟩), .call none .stop]⟩], events := [], dflt := none, sub := none },
+                { id := 2, enter := none, exit := none, routes := [], events := [], dflt := none, sub := none }] }]
+
+/-- non-vacuity of the arena theorems: `pingPong` is fresh and its ops legal; machine 0's action
+calls machine 1 (accepted: machine 1 is idle), whose action calls back machine 0 (rejected: machine
+0 is inside its `run`) and then its own `stop` (rejected) -/
+example : AI.Fresh pingPong ∧ (∀ op ∈ [AOp.call 0 .start, .call 1 .start, .call 0 (.run ⟨1, 0⟩)], op.Legal) := by
+  refine ⟨by intro m hm; simp [pingPong] at hm; rcases hm with h | h <;> subst h <;> rfl, ?_⟩
+  intro op hop; simp at hop; rcases hop with h | h | h <;> subst h <;> trivial
+
+example :
+    let r := aProg pingPong [.call 0 .start, .call 1 .start, .call 0 (.run ⟨1, 0⟩)]
+    (r.2.any fun ev => match ev with | ⟨1, .call (some 0) (.run ⟨2, 0⟩) false _ _⟩ => true | _ => false) = true ∧
+    (r.2.any fun ev => match ev with | ⟨1, .call none .stop false _ _⟩ => true | _ => false) = true ∧
+    (r.2.any fun ev => match ev with | ⟨0, .call (some 1) (.run ⟨1, 0⟩) true _ _⟩ => true | _ => false) = true ∧
+    (r.1.get 0).rt.curr = some 2 ∧ (r.1.get 1).rt.curr = some 2 := by decide
+
+/-- non-vacuity: in `pingPong` machine 0's `run(1)` takes the transition 1 → 2 with all four phases
+while its action drives machine 1 through a transition of its own -/
+example :
+    AI.aPhases 0 (aCall Fix.all 6 (aProg pingPong [.call 0 .start, .call 1 .start]).1 0 (.run ⟨1, 0⟩)).2.2 =
+      [.exit 1 ⟨1, 0⟩ false, .action 1 (some 0) ⟨1, 0⟩ true, .enter 2 ⟨1, 0⟩ false, .notify 1 2 ⟨1, 0⟩ false] ∧
+    AI.aPhases 1 (aCall Fix.all 6 (aProg pingPong [.call 0 .start, .call 1 .start]).1 0 (.run ⟨1, 0⟩)).2.2 =
+      [.exit 1 ⟨1, 0⟩ false, .action 1 (some 0) ⟨1, 0⟩ true, .enter 2 ⟨1, 0⟩ false, .notify 1 2 ⟨1, 0⟩ false] := by decide
+
+
+/-- non-vacuity of `C16_arena_reentrancy_rejected` (1): a store with a busy machine (machine 1 is
+inside its `start`, about to start its sub-machine 0); calls on it from anywhere change nothing -/
+example :
+    ((((cexArena.updRt 1 fun rt => { rt with running := true, curr := some 1 }).incLevel 1).get 1).rt.cbLevel ≠ 0) ∧
+    ((aCall Fix.all 9 ((cexArena.updRt 1 fun rt => { rt with running := true, curr := some 1 }).incLevel 1) 1 .stop).1.view 1
+      = ((cexArena.updRt 1 fun rt => { rt with running := true, curr := some 1 }).incLevel 1).view 1) ∧
+    (aCall Fix.all 9 ((cexArena.updRt 1 fun rt => { rt with running := true, curr := some 1 }).incLevel 1) 1 (.run ⟨1, 0⟩)).2.1 = false := by decide
 
 end Tbox.C16
